@@ -682,7 +682,7 @@ fn c01_scm_loop_bracket_utf8_fwd_greedy() {
     scm_loop_body(input, &hy, Insn::Bracket(0), vec![bc], |d| (lo <= d && d <= hi) != invert, true, true);
 }
 
-// @verif props=C01,C06,C12 tier=thorough timeout=2400 unwind=9 bound="Loop1CharBody over Bracket{invert symbolic, one symbolic interval}; haystack <= 3 symbolic scalars; forward, lazy" funcs="run_scm_loop,scm::Bracket,CharProperties::bracket,CodePointSet::contains"
+// @verif props=C01,C06,C12 tier=extended timeout=2400 unwind=9 bound="Loop1CharBody over Bracket{invert symbolic, one symbolic interval}; haystack <= 3 symbolic scalars; forward, lazy" funcs="run_scm_loop,scm::Bracket,CharProperties::bracket,CodePointSet::contains"
 #[kani::proof]
 #[kani::unwind(9)]
 fn c01_scm_loop_bracket_utf8_fwd_lazy() {
@@ -712,7 +712,7 @@ fn c01_scm_loop_bracket_utf8_bwd_greedy() {
     scm_loop_body(input, &hy, Insn::Bracket(0), vec![bc], |d| (lo <= d && d <= hi) != invert, false, true);
 }
 
-// @verif props=C01,C06,C12 tier=thorough timeout=2400 unwind=9 bound="Loop1CharBody over Bracket{invert symbolic, one symbolic interval}; haystack <= 3 symbolic scalars; backward, lazy" funcs="run_scm_loop,scm::Bracket,CharProperties::bracket,CodePointSet::contains"
+// @verif props=C01,C06,C12 tier=extended timeout=2400 unwind=9 bound="Loop1CharBody over Bracket{invert symbolic, one symbolic interval}; haystack <= 3 symbolic scalars; backward, lazy" funcs="run_scm_loop,scm::Bracket,CharProperties::bracket,CodePointSet::contains"
 #[kani::proof]
 #[kani::unwind(9)]
 fn c01_scm_loop_bracket_utf8_bwd_lazy() {
